@@ -101,15 +101,20 @@ AllocE(s, e) ==
   [s EXCEPT !.known = @ \cup {e.o}, !.cnt = Put(@, e.o, 1), !.parent = Put(@, e.o, e.p)]
 
 \* ---- inc / dec / destroy: what the pointer type observes
+\* a count operation on a destroyed value inside a projection load / cache load / serialization also breaks the
+\* "keeps its snapshot alive" part of that operation's own property
+UafTag(s, t) ==
+  LET op == IF HasPend(s, t) THEN Top(s, t).op ELSE "none" IN
+  CASE op = "acc_load" -> "C01+C17" [] op \in {"cache_load", "cache_new", "cache_clone"} -> "C01+C16" [] op = "ser" -> "C01+C20" [] OTHER -> "C01"
 IncV(s, e) ==
-  CASE e.dead \/ e.o \in s.dead -> <<"C01", "reference count incremented after destruction">>
+  CASE e.dead \/ e.o \in s.dead -> <<UafTag(s, e.t), "reference count incremented after destruction">>
     [] e.o \notin s.known -> <<"C01", "count operation on something that is not a value">>
     [] e.n # s.cnt[e.o] + 1 -> <<"HARNESS", "count shadow out of sync">>
     [] OTHER -> OK
 IncE(s, e) == [s EXCEPT !.cnt[e.o] = @ + 1]
 
 DecV(s, e) ==
-  CASE e.dead \/ e.o \in s.dead -> <<"C01", "reference count decremented after destruction">>
+  CASE e.dead \/ e.o \in s.dead -> <<UafTag(s, e.t), "reference count decremented after destruction">>
     [] e.o \notin s.known -> <<"C01", "count operation on something that is not a value">>
     [] s.cnt[e.o] < 1 -> <<"C02", "count released twice (would go below zero)">>
     [] e.n # s.cnt[e.o] - 1 -> <<"HARNESS", "count shadow out of sync">>
